@@ -248,6 +248,7 @@ def _apply_op(ct, net, tree, cop, arrays, side):
     elif name == "get_path":
         o = observe.order_fns(random.Random(5))[cop["order"]]
         extra["path"] = tree.get_path(order=o)
+        extra["ssa_path"] = tree.get_ssa_path()          # default order: emitted again after later transformations
     elif name == "print_contractions":
         with contextlib.redirect_stdout(io.StringIO()):
             tree.print_contractions()
@@ -329,6 +330,27 @@ def observe_step(ct, net, tree, arrays, want_value=True):
     except Exception as e:
         out["errors"].append(("rebuild", core.exc_text(e)))
         out["rebuild"] = ["raised"]
+    # the paths the tree emits must denote the tree as it is NOW (whatever was emitted before a transformation)
+    try:
+        for nm, pth, ssa_form in (("get_ssa_path()", obs.get_ssa_path(), True), ("get_path()", obs.get_path(), False)):
+            ids = {i: frozenset([i]) for i in range(obs.N)} if ssa_form else None
+            live = [frozenset([i]) for i in range(obs.N)]
+            made = set()
+            nxt = obs.N
+            for step in pth:
+                if ssa_form:
+                    u = frozenset().union(*[ids.pop(i) for i in step])
+                    ids[nxt] = u
+                    nxt += 1
+                else:
+                    parts = [live.pop(i) for i in sorted(step, reverse=True)]
+                    u = frozenset().union(*parts)
+                    live.append(u)
+                made.add(u)
+            if made != {frozenset(p) for p in obs.children}:
+                out["errors"].append(("path", f"{nm} denotes another tree than the tree's children"))
+    except Exception as e:
+        out["errors"].append(("path", core.exc_text(e)))
     out["programs"] = []
     out["value_bad"] = []
     ref, fix = expected_value(net, tree, arrays)
